@@ -150,7 +150,7 @@ def anchors(ctx, e, contrib):
 
 def run_net(case, ctx):
     rng = ctx.rng
-    scen = P.build_scenario(rng, case['flavour'], ctx, topo_kw={'lumped': True, 'per_freq_loss': True})
+    scen = P.build_scenario(rng, case['flavour'], ctx, topo_kw={'lumped': True, 'per_freq_loss': True, 'dispersion_variants': True})
     for job in scen['jobs']:
         try:
             p, si, events, ops = W.propagate_copy(job['path'], job['req'], scen['equipment'])
@@ -223,6 +223,18 @@ def gen_line(rng):
             d = fp.pop('dispersion')
             fp['dispersion_per_frequency'] = {'value': [d * 1.1, d * 1.03, d * 0.98, d * 0.9],
                                               'frequency': [184e12, 191e12, 194e12, 199e12]}
+            if rng.random() < 0.4:
+                perm = rng.sample(range(4), 4)
+                fp['dispersion_per_frequency'] = {k: [v[i] for i in perm]
+                                                  for k, v in fp['dispersion_per_frequency'].items()}
+        if rng.random() < 0.2:
+            base = fp['loss_coef']
+            tab = {'value': [round(base + 0.02, 4), base, round(base + 0.01, 4), round(base + 0.035, 4)],
+                   'frequency': [184e12, 191e12, 194e12, 199e12]}
+            if rng.random() < 0.5:
+                perm = rng.sample(range(4), 4)
+                tab = {k_: [v[i_] for i_ in perm] for k_, v in tab.items()}
+            fp['loss_coef'] = tab
         if rng.random() < 0.3 and fp['length'] > 4:
             fp['lumped_losses'] = [{'position': round(fp['length'] * G.rnd(rng, 0.2, 0.8, 3), 3),
                                     'loss': G.pick(rng, [0.5, 1.0])}]
@@ -280,6 +292,26 @@ def run_line(case, ctx):
             if rel_dev(getattr(r, k), getattr(r0, k)) > 1e-12:
                 ctx.violation('order-dependence', f'{k} depends on the span order: {getattr(r0, k)[0]:.12e} vs '
                               f'{getattr(r, k)[0]:.12e} for order {o}', {'spans': spans})
+    # a per-frequency table is a set of pairs: the same line with every table listed by increasing frequency
+    def sorted_tab(t):
+        fr, va = zip(*sorted(zip(t['frequency'], t['value'])))
+        return {'value': list(va), 'frequency': list(fr)}
+    canon = deepcopy(spans)
+    for s_ in canon:
+        for key in ('dispersion_per_frequency', 'loss_coef'):
+            if isinstance(s_['fiber'].get(key), dict):
+                s_['fiber'][key] = sorted_tab(s_['fiber'][key])
+    if canon != spans:
+        si = make_si(carriers)
+        for el in build_line(canon, equipment):
+            si = el(si)
+        rc = attach.Snap(si)
+        ctx.count('table_order_checks')
+        for k in ('cd', 'latency', 'pmd', 'pdl', 'pch'):
+            if rel_dev(getattr(rc, k), getattr(r0, k)) > 1e-12:
+                ctx.violation('table-order-dependence', f'{k} at the end of the line depends on the order in which a '
+                              f'per-frequency table lists its points: {getattr(r0, k)[0]:.12e} vs '
+                              f'{getattr(rc, k)[0]:.12e} with sorted tables', {'spans': spans})
     # independent totals
     f0 = r0.frequency
     ctx.count('path_totals')
@@ -413,8 +445,13 @@ def run_raman(case, ctx):
         val = G.pick(rng, [0.5, 1.0, 2.0])
         set_sim(method, order, dz)
         e0, _ = raman_fibre(rng2, [], length_km=length, cls=Fiber, loss_coef=fp['loss_coef'])
-        e1, _ = raman_fibre(rng2, [], length_km=length, cls=Fiber, lumped=[{'position': pos_km, 'loss': val}],
-                             loss_coef=fp['loss_coef'])
+        lumped = [{'position': pos_km, 'loss': val}]
+        if rng.random() < 0.3:
+            # a second loss declared at the very same place (splice + connector): both count
+            lumped.append({'position': pos_km, 'loss': G.pick(rng, [0.3, 0.7])})
+            val = val + lumped[-1]['loss']
+            ctx.count('raman_lumped_same_position')
+        e1, _ = raman_fibre(rng2, [], length_km=length, cls=Fiber, lumped=lumped, loss_coef=fp['loss_coef'])
         d = out_loss_db(e1, low) - out_loss_db(e0, low)
         ctx.count('raman_lumped_checks')
         tol = 1e-6 if method == 'perturbative' else 3e-4
@@ -422,6 +459,23 @@ def run_raman(case, ctx):
         if np.max(np.abs(d - val)) > tol:
             ctx.violation('raman-lumped-once', f'{method}: a {val} dB lumped loss at {pos_km} km ({"on" if on_grid else "off"} '
                           f'the solver grid) changes the attenuation by {d[0]:.5f} dB', {'length': length, 'dz': dz})
+    # -- Raman computation off: a RamanFiber (pumps declared) is a plain fibre, exact loss budget, no noise added
+    SimParams.set_params({})
+    lumped = None
+    if rng.random() < 0.5:
+        pos_km = round(length * G.rnd(rng, 0.2, 0.8, 2), 1)
+        lumped = [{'position': pos_km, 'loss': 0.5}] * rng.choice([1, 2])
+    eoff, poff = raman_fibre(rng2, pumps, length_km=length, loss_coef=fp['loss_coef'], lumped=lumped)
+    si = make_si(low)
+    pin = np.array(si.pch)
+    out = eoff(si)
+    budget = poff['loss_coef'] * length + sum(x['loss'] for x in (lumped or []))
+    got = 10 * np.log10(pin / out.pch)
+    ctx.count('raman_off_checks')
+    if np.max(np.abs(got - budget)) > 1e-9 or np.any(out._ase_ratio != 0):
+        ctx.violation('raman-off-budget', f'RamanFiber with the Raman computation off: attenuation {got[0]:.9f} dB, '
+                      f'budget {budget:.9f} dB, ASE share {float(np.max(out._ase_ratio)):.3e}',
+                      {'fibre': poff, 'pumps': pumps})
     # -- counter-propagating pumps only add gain
     set_sim('perturbative', 2, 100)
     base, _ = raman_fibre(rng2, [], length_km=length, loss_coef=fp['loss_coef'])
